@@ -423,3 +423,146 @@ Proof.
 Qed.
 
 End Invariant.
+
+(* ------------------------------------------------------------------ the hooks' building blocks keep the invariant *)
+Definition old_or_empty (old new : regions) : Prop :=
+  forall p, In p new -> In p old \/ r_data (snd p) = [].
+Lemma ooe_refl l : old_or_empty l l.
+Proof. intros p H. left. exact H. Qed.
+Lemma ooe_trans a b c : old_or_empty a b -> old_or_empty b c -> old_or_empty a c.
+Proof. intros H1 H2 p Hp. destruct (H2 p Hp) as [H|H]; [apply H1; exact H | right; exact H]. Qed.
+Lemma ooe_fresh a b : old_or_empty a b -> fresh_empty a b.
+Proof.
+  intros H p Hp Hid. destruct (H p Hp) as [Ho|He]; [|exact He].
+  exfalso. apply Hid. unfold ids. apply in_map_iff. exists p. split; [reflexivity|exact Ho].
+Qed.
+Lemma ooe_ids a b c : ids b = ids a -> old_or_empty b c -> fresh_empty a c.
+Proof.
+  intros Hi H p Hp Hid. destruct (H p Hp) as [Ho|He]; [|exact He].
+  exfalso. apply Hid. rewrite <- Hi. unfold ids. apply in_map_iff. exists p. split; [reflexivity|exact Ho].
+Qed.
+
+Lemma rget_None_notin n l : rget n l = None -> ~ In n (map fst l).
+Proof.
+  induction l as [|[k r] t IH]; cbn [rget map fst In]; [tauto|].
+  destruct (rname_beq k n) eqn:Hb; [discriminate|]. intros H [Hk|Hin]; [|exact (IH H Hin)].
+  subst. rewrite rname_beq_refl in Hb. discriminate.
+Qed.
+Lemma rget_Some_In n l r : rget n l = Some r -> In (n, r) l.
+Proof.
+  induction l as [|[k r'] t IH]; cbn [rget In]; [discriminate|].
+  destruct (rname_beq k n) eqn:Hb; [|intros H; right; exact (IH H)].
+  apply rname_beq_eq in Hb. intros H. inversion H; subst. left. reflexivity.
+Qed.
+Lemma rdel_In n l p : In p (rdel n l) -> In p l.
+Proof.
+  induction l as [|[k r] t IH]; cbn [rdel In]; [tauto|].
+  destruct (rname_beq k n); [intros H; right; exact H|]. cbn [In]. intros [H|H]; [left; exact H | right; exact (IH H)].
+Qed.
+Lemma rdel_NoDup n l : NoDup (map fst l) -> NoDup (map fst (rdel n l)).
+Proof.
+  induction l as [|[k r] t IH]; cbn [rdel map fst]; [intros H; exact H|].
+  intros H. inversion H as [|? ? Hn Hd]; subst. destruct (rname_beq k n); [exact Hd|].
+  cbn [map fst]. constructor; [|exact (IH Hd)].
+  intros Hin. apply Hn. apply in_map_iff in Hin. destruct Hin as (p & Hf & Hp). apply rdel_In in Hp.
+  apply in_map_iff. exists p. split; assumption.
+Qed.
+Lemma rset_names n r l : map fst (rset n r l) = map fst l.
+Proof.
+  induction l as [|[k r'] t IH]; cbn [rset map fst]; [reflexivity|].
+  destruct (rname_beq k n) eqn:Hb; cbn [map fst]; [reflexivity | rewrite IH; reflexivity].
+Qed.
+Lemma rset_In n r l p : In p (rset n r l) -> In p l \/ (p = (n, r) /\ rget n l <> None).
+Proof.
+  induction l as [|[k r'] t IH]; cbn [rset rget In]; [tauto|].
+  destruct (rname_beq k n) eqn:Hb.
+  - apply rname_beq_eq in Hb. subst. cbn [In]. intros [H|H]; [right; split; [symmetry; exact H | discriminate] | left; right; exact H].
+  - cbn [In]. intros [H|H]; [left; left; exact H|]. destruct (IH H) as [H'|H']; [left; right; exact H' | right; exact H'].
+Qed.
+Lemma rset_ids n r l m : rget n l = Some m -> r_id r = r_id m -> ids (rset n r l) = ids l.
+Proof.
+  unfold ids. induction l as [|[k r'] t IH]; cbn [rset rget map]; [reflexivity|].
+  destruct (rname_beq k n); cbn [map snd]; intros H Hi.
+  - inversion H; subst. rewrite Hi. reflexivity.
+  - rewrite (IH H Hi). reflexivity.
+Qed.
+
+Lemma NoDup_snoc {A} (l : list A) x : NoDup l -> ~ In x l -> NoDup (l ++ [x]).
+Proof.
+  induction l as [|y t IH]; cbn [app]; intros Hn Hx; [constructor; [tauto|constructor]|].
+  inversion Hn as [|? ? Hy Hd]; subst. constructor.
+  - intros Hin. apply in_app_or in Hin. destruct Hin as [H|[H|[]]]; [exact (Hy H)|]. subst. apply Hx. left. reflexivity.
+  - apply IH; [exact Hd|]. intros H. apply Hx. right. exact H.
+Qed.
+
+Section Hooks.
+Context {X : Type}.
+Variable K : rname -> bool -> Prop.
+
+Lemma Inv_same_regs st (s s' : ist X) :
+  Inv K st s -> i_pos s' = i_pos s -> i_regs s' = i_regs s -> i_fin s' = i_fin s -> Inv K st s'.
+Proof. intros (H1 & H2 & H3 & H4) Hp Hr Hf. unfold Inv. rewrite Hp, Hr, Hf. auto. Qed.
+
+Lemma Inv_new_region st (s s' : ist X) n sp e :
+  Inv K st s -> (rs_end sp = true -> 0 < rs_len sp) -> K n (rs_end sp) ->
+  new_region n sp s = (s', e) ->
+  Inv K st s' /\ old_or_empty (i_regs s) (i_regs s') /\ i_fin s' = i_fin s.
+Proof.
+  intros HI Hp Hk Hn. unfold new_region, has_region, rhas in Hn.
+  destruct (rget n (i_regs s)) eqn:Hg; inversion Hn; subst; clear Hn.
+  - split; [exact HI|]. split; [apply ooe_refl | reflexivity].
+  - destruct HI as (H1 & H2 & H3 & H4). unfold Inv, kinds_ok. cbn [i_pos i_regs i_fin]. split; [|split; [|reflexivity]].
+    + split; [exact H1|]. split; [|split].
+      * rewrite map_app. cbn [map fst]. apply NoDup_snoc; [exact H2 | apply rget_None_notin; exact Hg].
+      * apply Forall_app. split; [exact H3|]. constructor; [|constructor]. cbn [snd]. apply RI_fresh. exact Hp.
+      * apply Forall_app. split; [exact H4|]. constructor; [|constructor]. cbn [fst snd region_of_spec r_end]. exact Hk.
+    + intros p Hin. apply in_app_or in Hin. destruct Hin as [H|[<-|[]]]; [left; exact H | right; reflexivity].
+Qed.
+
+Lemma Inv_delete_region st (s s' : ist X) n e :
+  Inv K st s -> delete_region n s = (s', e) ->
+  Inv K st s' /\ old_or_empty (i_regs s) (i_regs s') /\ i_fin s' = i_fin s.
+Proof.
+  intros HI Hd. unfold delete_region in Hd. destruct (has_region n s); inversion Hd; subst; clear Hd.
+  - destruct HI as (H1 & H2 & H3 & H4). unfold Inv, kinds_ok. cbn [set_regs i_pos i_regs i_fin].
+    split; [|split; [|reflexivity]].
+    + split; [exact H1|]. split; [apply rdel_NoDup; exact H2|]. split.
+      * apply Forall_forall. intros p Hp. rewrite Forall_forall in H3. apply H3. eapply rdel_In; exact Hp.
+      * apply Forall_forall. intros p Hp. unfold kinds_ok in H4. rewrite Forall_forall in H4. apply H4. eapply rdel_In; exact Hp.
+    + intros p Hp. left. eapply rdel_In; exact Hp.
+  - split; [exact HI|]. split; [apply ooe_refl | reflexivity].
+Qed.
+
+Lemma Inv_add_check st (s s' : ist X) c e :
+  Inv K st s -> add_check c s = (s', e) ->
+  Inv K st s' /\ old_or_empty (i_regs s) (i_regs s') /\ i_fin s' = i_fin s.
+Proof.
+  intros HI Ha. unfold add_check in Ha. destruct (mem_cname c (i_checks s)); inversion Ha; subst; clear Ha;
+    (split; [|split; [apply ooe_refl | reflexivity]]); [exact HI|].
+  eapply Inv_same_regs; [exact HI| | |]; reflexivity.
+Qed.
+
+Lemma Inv_set_ext st (s : ist X) x : Inv K st s -> Inv K st (set_ext s x).
+Proof. intros HI. eapply Inv_same_regs; [exact HI| | |]; reflexivity. Qed.
+
+(* in-place replacement of the region stored under n by one that satisfies the region invariant *)
+Lemma Inv_rset st (s : ist X) n m m' :
+  Inv K st s -> rget n (i_regs s) = Some m -> RI st (i_fin s) m' -> K n (r_end m') ->
+  Inv K st (set_regs s (rset n m' (i_regs s))).
+Proof.
+  intros (H1 & H2 & H3 & H4) Hg HR Hk. unfold Inv, kinds_ok. cbn [set_regs i_pos i_regs i_fin].
+  split; [exact H1|]. split; [rewrite rset_names; exact H2|]. split.
+  - apply Forall_forall. intros p Hp. apply rset_In in Hp. destruct Hp as [Hp|[-> _]].
+    + rewrite Forall_forall in H3. apply H3. exact Hp.
+    + exact HR.
+  - apply Forall_forall. intros p Hp. apply rset_In in Hp. destruct Hp as [Hp|[-> _]].
+    + unfold kinds_ok in H4. rewrite Forall_forall in H4. apply H4. exact Hp.
+    + exact Hk.
+Qed.
+
+Lemma Inv_region_RI st (s : ist X) n r : Inv K st s -> rget n (i_regs s) = Some r -> RI st (i_fin s) r /\ K n (r_end r).
+Proof.
+  intros (_ & _ & H3 & H4) Hg. apply rget_Some_In in Hg. unfold kinds_ok in H4. rewrite Forall_forall in H3, H4.
+  split; [apply (H3 _ Hg) | apply (H4 _ Hg)].
+Qed.
+End Hooks.
